@@ -480,6 +480,11 @@ def rule_d(ctx):
     init = m.func(MOD, "Grid.__init__")
     _generate_grid(ctx, R, m, g, init)
     _grid_init(ctx, R, m, init)
+    # the grid is built from image.num_voxels / image.voxel_size at the time of the call: these accessors must not hand out values kept
+    # from construction time (the array may have been replaced since)
+    from . import c01 as _c01
+
+    _c01.rule_f(ctx)
     ctx.floor(R, 1)
 
 
